@@ -104,8 +104,8 @@ func specList() []specEntry {
 		{"tuple-ab", "tuple", hcldec.TupleSpec{dynA, dynB}},
 		{"default-literal", "default", hcldec.ObjectSpec{"a": &hcldec.DefaultSpec{Primary: dynA, Default: &hcldec.LiteralSpec{Value: cty.StringVal("dflt")}}}},
 		{"default-attr", "default", hcldec.ObjectSpec{"a": &hcldec.DefaultSpec{Primary: dynA, Default: dynB}}},
-		{"default-required", "default", hcldec.ObjectSpec{"a": &hcldec.DefaultSpec{Primary: &hcldec.AttrSpec{Name: "a", Type: cty.DynamicPseudoType, Required: true}, Default: &hcldec.LiteralSpec{Value: cty.StringVal("dflt")}}}},
-		{"default-default-required", "default", hcldec.ObjectSpec{"a": &hcldec.DefaultSpec{Primary: dynA, Default: &hcldec.AttrSpec{Name: "b", Type: cty.DynamicPseudoType, Required: true}}}},
+		{"default-required", "default-required", hcldec.ObjectSpec{"a": &hcldec.DefaultSpec{Primary: &hcldec.AttrSpec{Name: "a", Type: cty.DynamicPseudoType, Required: true}, Default: &hcldec.LiteralSpec{Value: cty.StringVal("dflt")}}}},
+		{"default-default-required", "default-required", hcldec.ObjectSpec{"a": &hcldec.DefaultSpec{Primary: dynA, Default: &hcldec.AttrSpec{Name: "b", Type: cty.DynamicPseudoType, Required: true}}}},
 		{"literal", "literal", &hcldec.LiteralSpec{Value: cty.StringVal("lit")}},
 		{"x-block", "block", hcldec.ObjectSpec{"x": &hcldec.BlockSpec{TypeName: "x", Nested: inner}}},
 		{"x-block-required", "block", hcldec.ObjectSpec{"x": &hcldec.BlockSpec{TypeName: "x", Nested: inner, Required: true}}},
